@@ -189,6 +189,28 @@ def h_siblings(E):
     return 'ok'
 
 
+def h_siblings_many(E, n, k):
+    """an ordered list of n boxes whose LAST answer references box k (multi-digit box numbers included): the student can use no sibling name at all,
+    whether the answers reference it or not, however the reference cancels"""
+    import mitxgraders as m
+    from mitxgraders.exceptions import StudentFacingError
+    SX = make_sym_sampler(E, 'x', 1, 2)
+    answers = ['%d*x' % (i + 1) for i in range(n - 1)] + ['sibling_%d + 1' % k]
+    g = m.ListGrader(answers=answers, subgraders=m.FormulaGrader(variables=['x'], sample_from={'x': SX()}, samples=1), ordered=True)
+    honest = ['%d*x' % (i + 1) for i in range(n - 1)] + ['%d*x + 1' % k]
+    ok = g(None, honest)
+    E.check('honest-answer-graded', all(e['ok'] is True for e in ok['input_list']))
+    j = E.fork_int('referenced_box', 1, n)
+    form = E.choice('form', ['sibling_%d + 1', 'KX + 1 + 0*sibling_%d', 'KX + 1 + sibling_%d - sibling_%d', 'KX + sibling_%d^0'])
+    cheat = form.replace('KX', '%d*x' % k).replace('%d', str(j))
+    try:
+        g(None, honest[:-1] + [cheat])
+        E.check('restricted-construct-refused-never-credited', False)
+    except StudentFacingError:
+        E.check('restricted-construct-refused-never-credited', True)
+    return 'ok'
+
+
 def h_forbidden_spaces(E, which):
     """spaces inserted at every gap of the submission: the forbidden-string test ignores them"""
     from mitxgraders.helpers.math_helpers import validate_forbidden_strings_not_used
@@ -226,6 +248,8 @@ def harnesses(tier):
     for where in ('summand', 'lower', 'upper', 'all'):
         add(h_sum, 'sum', dict(where=where), 'symbolic samples; restricted construct in that field')
     add(h_siblings, 'siblings', {}, 'symbolic samples')
+    for n, k in ((3, 1), (11, 10), (12, 3), (12, 11)):
+        add(h_siblings_many, 'siblings_many', dict(n=n, k=k), 'n boxes, last answer references box k; student mentions any sibling_j, 4 cancelling forms')
     for w in ('sub', 'nosub'):
         add(h_forbidden_spaces, 'forbidden_spaces', dict(which=w), 'a space (or none) at each of 5 gaps', validate=False)
     return hs
